@@ -8,13 +8,21 @@ behaviour on RocksDB, Fjall and MemKv (control) under several concrete,
 adversarial key encodings ("families") in a fresh directory with real
 close / reopen, and a reader-vs-committer probe looks for partially visible
 batches.
+First touch after open: specs/KvStoreGen.tla (FTSpec, KvStoreGenFT.cfg) is
+enumerated exhaustively by TLC - [committed prefix; close/open;] op1; [op2];
+commit; read everything; close/open; read everything, where nothing is read
+between the open and op1, so that op1 is the first operation that resolves its
+column family in the session (KvStore.tla: cfmap / touched, invariants
+ResultsIgnoreTouched and OwnFamilyOnly, mutation switch MisTag).
 """
 import json
 import os
 import re
 import shutil
+import subprocess
 import tempfile
 import time
+from concurrent.futures import ThreadPoolExecutor
 
 import vp
 
@@ -38,6 +46,7 @@ LOCAL_KNOWN = {
                            "(fjall 3.0.1 DatabaseInner::drop keeps sending Close while active_thread_counter > 0)",
 }
 
+MAX_VIOLATION_FILES = 12      # further wrong reads of one run are counted, not written
 ALL_FAMS = ["int", "bytes", "ff", "varff", "big", "nested", "strbytes", "raw", "rawvar"]
 RAW_FAMS = {"raw", "rawvar"}          # key types whose encoding is not self-delimiting
 BACKENDS = ["rocksdb", "fjall", "mem"]
@@ -87,7 +96,7 @@ def kv_replay(bd, *args, timeout=3000):
 def model_check(coverage=False):
     """Exhaustive runs of the reference with the contract switches."""
     out = {"states": 0, "transitions": 0, "configs": {}, "coverage": {}}
-    for cfg in ("KvStoreMC.cfg", "KvStoreMCWide.cfg", "KvStoreMCSets.cfg"):
+    for cfg in ("KvStoreMC.cfg", "KvStoreMCWide.cfg", "KvStoreMCSets.cfg", "KvStoreMCTouch.cfg"):
         r = vp.tlc("KvStore", cfg=cfg, workers=4, timeout=600, coverage=coverage and cfg == "KvStoreMC.cfg")
         if not r["ok"]:
             # a counterexample in the model alone is a defect of the model,
@@ -116,6 +125,101 @@ def asis_switches():
     return res
 
 
+def first_touch_mutation():
+    """The family cache of the reference is not vacuous: with the mutation
+    switch (a buffered member delete names the other family on a cache miss)
+    TLC finds a wrong scan, through a Reopen, and the dependence on `touched`."""
+    res = {}
+    r = vp.tlc("KvStore", cfg="KvStoreMutFirstTouch.cfg", workers=4, timeout=600, check_ok=False)
+    wrong_scan = "ScansExactMembers" in r["invariant_violated"]
+    through_reopen = bool(re.search(r"State \d+: <Reopen ", r["out"])) and bool(re.search(r"State \d+: <Consume", r["out"]))
+    if not (wrong_scan and through_reopen):
+        raise vp.ToolError(f"KvStoreMutFirstTouch.cfg: expected a wrong scan through Consume and Reopen, TLC says "
+                           f"{r['invariant_violated']}\n{r['out'][-2000:]}")
+    res["KvStoreMutFirstTouch.cfg"] = {"ScansExactMembers_violated": True, "trace_has_Reopen_and_Consume": True,
+                                       "trace_len": len(re.findall(r"^State \d+: <", r["out"], re.M)) + 1,
+                                       "distinct": r["distinct"]}
+    r = vp.tlc("KvStore", cfg="KvStoreMutFirstTouchDep.cfg", workers=4, timeout=600, check_ok=False)
+    if "ResultsIgnoreTouched" not in r["invariant_violated"]:
+        raise vp.ToolError(f"KvStoreMutFirstTouchDep.cfg: expected ResultsIgnoreTouched violated, TLC says "
+                           f"{r['invariant_violated']}\n{r['out'][-2000:]}")
+    res["KvStoreMutFirstTouchDep.cfg"] = {"ResultsIgnoreTouched_violated": True, "distinct": r["distinct"]}
+    return res
+
+
+def _cases_from_tlc(out, path):
+    n = 0
+    with open(path, "w") as f:
+        for line in out.splitlines():
+            if line.startswith('"{'):
+                f.write(json.loads(line) + "\n")
+                n += 1
+    return n
+
+
+# bounds of the first-touch family: elements op1/op2 range over, get/scan as
+# op2, late consume, keys of op2, op2 after the empty prefix
+FT_BOUNDS = {"quick": {"FT_NE_OP": 1, "FT_OP2READS": 0, "FT_LATE": 0, "FT_NK_OP2": 1, "FT_FRESH_OP2": 0},
+             "thorough": {"FT_NE_OP": 2, "FT_OP2READS": 1, "FT_LATE": 1, "FT_NK_OP2": 2, "FT_FRESH_OP2": 1}}
+
+
+def generate_ft(wd, tier):
+    """Exhaustive (breadth-first) enumeration of the first-touch behaviours.
+    Returns (cases path, n, TLC result, shape statistics)."""
+    env = {"NK": "2", "NV": "2", "NE": "3", "STEPS": "0"}
+    env.update({k: str(v) for k, v in FT_BOUNDS["thorough" if tier == "thorough" else "quick"].items()})
+    r = vp.tlc("KvStoreGen", cfg="KvStoreGenFT.cfg", env=env, workers=1, timeout=1500, check_ok=False)
+    if not r["ok"]:
+        raise vp.ToolError("KvStoreGen/FTSpec: TLC did not complete without error:\n" + r["out"][-3000:])
+    path = os.path.join(wd, "cases_firsttouch.ndjson")
+    n = _cases_from_tlc(r["out"], path)
+    if n == 0:
+        raise vp.ToolError("KvStoreGen/FTSpec produced no behaviours:\n" + r["out"][-3000:])
+    # shape statistics, from the `t` (columns touched so far) the model printed
+    st = {"behaviours": n, "prefix": {}, "op1": {}, "op1_is_first_touch_of_its_column": 0, "with_op2": 0,
+          "op2_first_touch_of_another_column": 0, "first_touch_is_a_read_then_write": 0,
+          "read_between_open_and_op1": 0, "late_consume": 0}
+    for line in open(path):
+        c = json.loads(line)
+        ev = c["events"]
+        pre = ev[0]["prefix"]
+        st["prefix"][pre] = st["prefix"].get(pre, 0) + 1
+        start = max(i for i, e in enumerate(ev) if e["a"] == "batch")
+        body = [e for e in ev[start + 1:] if e["a"] in ("op", "get", "scan", "consume")]
+        # an op staged in a buffer touches its column when the buffer is consumed
+        touches, staged = [], []
+        for e in body:
+            if e["a"] == "op" and e["via"] == "sb":
+                staged.append(e)
+            elif e["a"] == "consume":
+                touches += [(s, e["t"]) for s in staged]
+                staged = []
+            else:
+                touches.append((e, e["t"]))
+        issued = [e for e in body if e["a"] != "consume"]
+        o1 = issued[0]
+        col1 = o1["op"]["c"] if o1["a"] == "op" else o1["c"]
+        key = (o1["via"] + "_" + o1["op"]["k"] if o1["a"] == "op" else o1["a"]) + ":" + col1
+        st["op1"][key] = st["op1"].get(key, 0) + 1
+        if ev[start]["t"] or o1["t"]:
+            st["read_between_open_and_op1"] += 1      # must stay 0 (FTFirstTouch)
+        first = touches[0]
+        fcol = first[0]["op"]["c"] if first[0]["a"] == "op" else first[0]["c"]
+        if first[0] is o1 and fcol not in first[1]:
+            st["op1_is_first_touch_of_its_column"] += 1
+        elif first[0] is not o1:
+            st["late_consume"] += 1
+        if len(issued) > 1:
+            st["with_op2"] += 1
+            o2 = issued[1]
+            col2 = o2["op"]["c"] if o2["a"] == "op" else o2["c"]
+            if col2 != col1:
+                st["op2_first_touch_of_another_column"] += 1
+            if o1["a"] in ("get", "scan") and o2["a"] == "op":
+                st["first_touch_is_a_read_then_write"] += 1
+    return path, n, r, st
+
+
 def generate(wd, name, seed, nk, nv, ne, steps, num):
     """Seeded random walks of KvStoreGen; returns (cases path, n, states)."""
     r = vp.tlc("KvStoreGen", cfg="KvStoreGen.cfg",
@@ -123,12 +227,7 @@ def generate(wd, name, seed, nk, nv, ne, steps, num):
                workers=1, timeout=1500, check_ok=False,
                extra=["-simulate", f"num={num}", "-depth", str(2 * steps + 4), "-seed", str(seed)])
     path = os.path.join(wd, f"cases_{name}.ndjson")
-    n = 0
-    with open(path, "w") as f:
-        for line in r["out"].splitlines():
-            if line.startswith('"{'):
-                f.write(json.loads(line) + "\n")
-                n += 1
+    n = _cases_from_tlc(r["out"], path)
     if n == 0:
         raise vp.ToolError("KvStoreGen produced no behaviours:\n" + r["out"][-3000:])
     m = re.search(r"The number of states generated: (\d+)", r["out"])
@@ -182,8 +281,11 @@ def classify(results, cases_path, verdict, status, stats):
                 continue
             if cases is None:
                 cases = [json.loads(l) for l in open(cases_path) if l.strip()]
-            key = (res["fam"], res["backend"], f.get("read"), json.dumps(f.get("cell", f.get("set"))))
-            if key in stats["viol_seen"]:
+            ft = bool(cases[res["case"]].get("ft"))
+            # the first-touch behaviours are replayed under every family with the same abstract content
+            key = ("firsttouch" if ft else res["fam"], res["backend"], f.get("read"),
+                   json.dumps(f.get("cell", f.get("set"))))
+            if key in stats["viol_seen"] or len(stats["viol_seen"]) >= MAX_VIOLATION_FILES:
                 stats["viol_dups"] += 1
                 continue
             stats["viol_seen"].add(key)
@@ -244,6 +346,51 @@ def run_replays(bd, wd, tmp, plan, seed, verdict, status, stats, threads=8, shar
         classify(results, cases, verdict, status, stats)
 
 
+def run_ft_replays(bd, wd, tmp, cases_path, per_case, seed, verdict, status, stats, procs=8):
+    """The first-touch behaviours on every backend, in `procs` single-threaded
+    kv_replay processes over disjoint slices (RocksDB opens do not scale over
+    the threads of one process: the address-space lock is the bottleneck)."""
+    lines = [l for l in open(cases_path) if l.strip()]
+    jobs = []
+    for n in range(procs):
+        part = lines[n::procs]
+        if not part:
+            continue
+        cases = os.path.join(wd, f"cases_ft{n}.ndjson")
+        with open(cases, "w") as f:
+            f.writelines(part)
+        out = os.path.join(wd, f"result_ft{n}.ndjson")
+        args = [os.path.join(bd, "kv_replay"), "--cases", cases, "--out", out, "--fams", "all", "--per-case", str(per_case),
+                "--seed", str(seed + 1000 + n), "--threads", "1", "--tmp", tmp, "--watchdog", "60"]
+        jobs.append([n, cases, out, args, None])
+    for j in jobs:
+        j[4] = subprocess.Popen(j[3], cwd=wd, stdout=subprocess.PIPE, stderr=subprocess.STDOUT, text=True,
+                                errors="replace")
+    for n, cases, out, args, p in jobs:
+        try:
+            text, _ = p.communicate(timeout=3000)
+        except subprocess.TimeoutExpired as ex:
+            for j in jobs:
+                j[4].kill()
+            raise vp.ToolError("kv_replay (first touch) timeout") from ex
+        rc = p.returncode
+        if rc != 0:
+            # as in run_replays: one retry for a process killed by a signal
+            stats["harness_process_deaths"].append({"shard": f"ft{n}", "attempt": 1, "rc": rc, "tail": (text or "")[-500:]})
+            vp.log(f"kv_replay first-touch slice {n} died rc={rc}")
+            if rc > 0:
+                raise vp.ToolError(f"kv_replay failed on first-touch slice {n} (rc={rc})\n{(text or '')[-3000:]}")
+            rc, text = _kv_replay_shard(bd, wd, args[1:])
+            if rc != 0:
+                raise vp.ToolError(f"kv_replay failed twice on first-touch slice {n} (rc={rc})\n{text[-3000:]}")
+        results = [json.loads(l) for l in open(out) if l.strip()]
+        if not any(r.get("summary") for r in results):
+            raise vp.ToolError(f"kv_replay wrote no summary for {cases}")
+        before = stats["runs"]
+        classify(results, cases, verdict, status, stats)
+        stats["ft_runs"] += stats["runs"] - before
+
+
 def atomic_probe(bd, tmp, verdict, status, stats, batches, fillers):
     out = kv_replay(bd, "--mode", "atomic", "--batches", batches, "--fillers", fillers, "--tmp", tmp, timeout=900)
     line = [l for l in out.splitlines() if l.startswith('{"atomic"')]
@@ -266,7 +413,7 @@ def atomic_probe(bd, tmp, verdict, status, stats, batches, fillers):
 
 def new_stats():
     return {"runs": 0, "reads_compared": 0, "model_drift": {}, "drift_samples": {}, "kf_samples": {},
-            "viol_seen": set(), "viol_dups": 0, "atomic_probe": None, "harness_process_deaths": []}
+            "viol_seen": set(), "viol_dups": 0, "atomic_probe": None, "harness_process_deaths": [], "ft_runs": 0}
 
 
 # --------------------------------------------------------------------------
@@ -283,42 +430,83 @@ def run(tier, seed):
     status = known_status()
     stats = new_stats()
     try:
-        # exhaustive check of the reference first (not beside the replay: CPU
-        # contention is what triggers fjall's close hang)
-        mc = model_check(coverage=not quick)
-        asis = asis_switches()
+        # TLC first (not beside the replay: CPU contention is what triggers
+        # fjall's close hang), in two lanes: the exhaustive runs of the
+        # reference (4 workers each, one after the other) and the behaviour
+        # generators (1 worker each, one after the other)
         if quick:
             gens = [("k4", 4, 2, 3, 40, 120), ("k2", 2, 2, 2, 30, 60), ("unit", 1, 2, 3, 24, 40),
                     ("unit0", 1, 1, 1, 16, 20)]
-            per_case = 4
+            per_case, ft_per_case = 4, 1
         else:
             gens = [("k4", 4, 2, 3, 40, 1000), ("k4long", 4, 2, 3, 70, 300), ("k2", 2, 2, 2, 30, 400),
                     ("k3", 3, 2, 3, 50, 300), ("unit", 1, 2, 3, 24, 200), ("unit0", 1, 1, 1, 16, 60)]
-            per_case = 0
-        plan, gen_states, nbeh, sample_cases = [], 0, 0, []
-        for i, (name, nk, nv, ne, steps, num) in enumerate(gens):
-            path, n, st = generate(wd, name, seed * 100 + i, nk, nv, ne, steps, num)
-            gen_states += st
-            nbeh += n
-            plan.append((name, path, per_case))
-            if i < 2:
-                sample_cases.append(json.loads(open(path).readline()))
+            per_case, ft_per_case = 0, 3
+
+        def lane_reference():
+            return model_check(coverage=not quick), asis_switches(), first_touch_mutation()
+
+        def lane_generators():
+            plan, gen_states, nbeh, sample_cases = [], 0, 0, []
+            ft = generate_ft(wd, tier)
+            for i, (name, nk, nv, ne, steps, num) in enumerate(gens):
+                path, n, st = generate(wd, name, seed * 100 + i, nk, nv, ne, steps, num)
+                gen_states += st
+                nbeh += n
+                plan.append((name, path, per_case))
+                if i < 2:
+                    sample_cases.append(json.loads(open(path).readline()))
+            return plan, gen_states, nbeh, sample_cases, ft
+
+        phases = {"build_s": round(time.time() - t0, 1)}
+        t_ph = time.time()
+        with ThreadPoolExecutor(max_workers=2) as ex:
+            f_ref, f_gen = ex.submit(lane_reference), ex.submit(lane_generators)
+            mc, asis, ftmut = f_ref.result()
+            plan, gen_states, nbeh, sample_cases, (ft_path, ft_n, ft_tlc, ft_shape) = f_gen.result()
+        if ft_shape["read_between_open_and_op1"] or ft_shape["op1_is_first_touch_of_its_column"] + \
+                ft_shape["late_consume"] != ft_n:
+            raise vp.ToolError(f"first-touch family is not what it claims to be: {ft_shape}")
+        phases["tlc_two_lanes_s"] = round(time.time() - t_ph, 1)
+        t_ft = time.time()
+        run_ft_replays(bd, wd, tmp, ft_path, ft_per_case, seed, verdict, status, stats)
+        ft_wall = time.time() - t_ft
+        t_ph = time.time()
         run_replays(bd, wd, tmp, plan, seed, verdict, status, stats)
+        phases["random_walk_replay_s"] = round(time.time() - t_ph, 1)
+        t_ph = time.time()
         atomic_probe(bd, tmp, verdict, status, stats, 100 if quick else 600, 2000)
+        phases["atomic_probe_s"] = round(time.time() - t_ph, 1)
+        phases["first_touch_replay_s"] = round(ft_wall, 1)
+        vp.log(f"[C11] phases {json.dumps(phases)}")
     finally:
         shutil.rmtree(tmp, ignore_errors=True)
     rc = verdict.finish()
     layout = [json.loads(l) for l in kv_replay(bd, "--mode", "layout").splitlines() if l.startswith("{")]
     coverage = {
-        "states": mc["states"],
-        "transitions": mc["transitions"],
+        "states": mc["states"] + ft_tlc["distinct"],
+        "transitions": mc["transitions"] + ft_tlc["generated"],
         "traces_validated_against_impl": stats["runs"],
         "samples": [{"tlc_behaviour": {**c, "events": c["events"][:14]}} for c in sample_cases] +
+                   [{"first_touch_behaviour": json.loads(l)} for l in open(ft_path).readlines()[-1:]] +
                    [{"family_byte_layout": next(l for l in layout if l["fam"] == "rawvar")["cells"][8:12]}],
         "exhaustive_configs": mc["configs"],
         "action_coverage_KvStoreMC": mc["coverage"],
         "asis_switches": asis,
+        "phase_wall_s": phases,
         "behaviours_from_tlc_simulation": nbeh,
+        "first_touch_family": {
+            "what": "KvStoreGen.tla FTSpec / KvStoreGenFT.cfg, breadth-first: [prefix; close/open;] op1; [op2]; commit; "
+                    "read everything; close/open; read everything - no read between the open and op1",
+            "bounds": FT_BOUNDS["quick" if quick else "thorough"],
+            "tlc": {"distinct": ft_tlc["distinct"], "generated": ft_tlc["generated"], "depth": ft_tlc["depth"],
+                    "wall_s": round(ft_tlc["wall_s"], 1)},
+            "shape": ft_shape,
+            "families_per_behaviour": ft_per_case,
+            "runs_behaviour_x_family_x_backend": stats["ft_runs"],
+            "replay_wall_s": round(ft_wall, 1),
+            "model_mutation_MisTag_sb_rem": ftmut,
+        },
         "generator_states": gen_states,
         "runs_behaviour_x_family_x_backend": stats["runs"],
         "reads_compared_with_tlc_expectation": stats["reads_compared"],
@@ -332,7 +520,7 @@ def run(tier, seed):
         "duplicate_violations_suppressed": stats["viol_dups"],
         "harness_process_deaths_retried": stats["harness_process_deaths"],
         "rule": "one trace = one TLC behaviour (open/fill/consume/commit/drop batches and buffers, get, scan, "
-                "lazy iterator, reopen) replayed on one backend under one concrete key family in a fresh "
+                "lazy iterator, reopen with and without reads afterwards) replayed on one backend under one concrete key family in a fresh "
                 "directory; every get/scan and, after every commit/drop/reopen, every cell and every set is "
                 "compared with TLC's expectation",
     }
@@ -480,7 +668,38 @@ def selftest(seed):
                         and any(f["kind"] == "violation" for f in r["findings"])}
             print(f"corruption {how}: rejected on {sorted(rejected)}")
             ok &= rejected == set(BACKENDS)
-        # (3) informational: the minimal witnesses of the known findings
+        # (3) first touch after open: the model's family cache is not vacuous
+        # (mutation switch), the enumerated behaviours are accepted, and a
+        # corrupted expectation of the final "read everything" is rejected
+        print("first-touch mutation (MisTag = {sb_rem}) in the model:", json.dumps(first_touch_mutation()))
+        ft_path, ft_n, ft_tlc, ft_shape = generate_ft(wd, "quick")
+        print(f"first-touch family: {ft_n} behaviours, TLC {ft_tlc['distinct']} states; shape {json.dumps(ft_shape)}")
+        ft_cases = [json.loads(l) for l in open(ft_path)]
+        ft_cases = [c for c in ft_cases if c["events"][0]["prefix"] == "content"][::37]
+        p = os.path.join(wd, "ft_good.ndjson")
+        with open(p, "w") as f:
+            for c in ft_cases:
+                f.write(json.dumps(c) + "\n")
+        out = os.path.join(wd, "ft_good.result")
+        kv_replay(bd, "--cases", p, "--out", out, "--fams", "int,bytes", "--tmp", tmp)
+        res = [json.loads(l) for l in open(out)]
+        bad = [r for r in res if not r.get("summary") and any(f["kind"] == "violation" for f in r["findings"])]
+        print(f"first touch, unmodified: {len(ft_cases)} behaviours x 2 families x 3 backends, findings: {len(bad)}")
+        ok &= not bad
+        mutated = json.loads(json.dumps(ft_cases[0]))
+        last = [e for e in mutated["events"] if e["a"] == "sweep"][-1]
+        tgt = next(x for x in last["state"]["sets"] if len(x["els"]) == 3)
+        tgt["els"] = tgt["els"][1:]
+        p = os.path.join(wd, "ft_bad.ndjson")
+        with open(p, "w") as f:
+            f.write(json.dumps(mutated) + "\n")
+        out = os.path.join(wd, "ft_bad.result")
+        kv_replay(bd, "--cases", p, "--out", out, "--fams", "int", "--tmp", tmp)
+        rejected = {r["backend"] for r in map(json.loads, open(out)) if not r.get("summary")
+                    and any(f["kind"] == "violation" and f["at"] == "read everything" for f in r["findings"])}
+        print(f"first touch, corrupted final read-everything: rejected on {sorted(rejected)}")
+        ok &= rejected == set(BACKENDS)
+        # (4) informational: the minimal witnesses of the known findings
         for kid, fam, case, what in WITNESSES:
             p = os.path.join(wd, "witness.ndjson")
             with open(p, "w") as f:
